@@ -73,6 +73,7 @@ func (d *semDriver) run() {
 		k := twinKey(sc, cfg)
 		if _, ok := twinSpecs[k]; !ok {
 			twinSpecs[k] = d.mkSpec("twin/"+k, sc, cfg, OrderPlan{Mode: "canon"}, nil, false)
+			twinSpecs[k].Budget = 3000000000
 			tkeys = append(tkeys, k)
 		}
 		return k
@@ -185,6 +186,15 @@ func (d *semDriver) run() {
 	for i, k := range tkeys {
 		twins[k] = tres[i]
 	}
+	// step budget of every case: 50 x the steps of its twin (a deterministic,
+	// replayable non-termination verdict instead of the wall-clock watchdog)
+	for _, cs := range cases {
+		b := uint64(300000000)
+		if t := twins[cs.twin]; t != nil && t.Steps*50 > b {
+			b = t.Steps * 50
+		}
+		cs.spec.Budget = b
+	}
 	c.Logf("%s: %d scenarios, %d twins, %d cases", c.Prop, len(scs), len(tkeys), len(cases))
 	// run cases
 	const chunk = 768
@@ -208,6 +218,17 @@ func (d *semDriver) run() {
 			cs := cases[off+i]
 			d.account(cs, r)
 			issues := d.oracles(cs, r, twins[cs.twin])
+			if cl, wh, de := crashOf(r); cl != "" {
+				// the property's oracle cannot be evaluated on a run that did not return.
+				// If the restart-free, canonical twin returns, the crash is schedule-,
+				// restart- or fault-dependent and is reported here (it hides the property);
+				// otherwise it is C01's business alone.
+				if tcl, _, _ := crashOf(twins[cs.twin]); tcl == "" {
+					issues = append(issues, Issue{"unevaluable:" + cl, wh, "the run did not return, so the oracle could not be evaluated: " + de})
+				} else {
+					c.Ev.Probes["runs_unevaluable_twin_crashes_too"]++
+				}
+			}
 			for _, is := range issues {
 				nIssues++
 				key := cs.sc.Name + "|" + is.Class + "|" + is.Where
